@@ -44,6 +44,9 @@ def replay(entry, repo_root):
     if r.get('kind') == 'case':
         res = _run_case(r['case'])
         return res['what'] if res else None
+    if r.get('kind') == 'stdincase':
+        res = _run_stdin_case(dict(r['case'], repo=repo_root))
+        return res['what'] if res else None
     if r.get('kind') == 'statuscase':
         res = _run_status_case(dict(r['case'], repo=repo_root))
         return res['what'] if res else None
@@ -207,6 +210,38 @@ def _run_status_case(case):
         tf.cleanup()
 
 
+def _run_stdin_case(case):
+    """A document given on standard input ('-', with its type stated by --from-/--to-) renders exactly as the same document
+    given as a file, for either position (the real command in a subprocess)."""
+    import subprocess
+    import sys
+    tf = gt.TempFiles()
+    try:
+        texts = _status_docs()[case['ft']]
+        ft = case['ft'].split('-')[0]
+        da, db = texts[0].encode('utf-8'), (texts[0] if case['same'] else texts[1]).encode('utf-8')
+        pa, pb = tf.write(da, texts[2], binary=True), tf.write(db, texts[2], binary=True)
+        env = dict(os.environ)
+        env['PYTHONPATH'] = case['repo'] + os.pathsep + env.get('PYTHONPATH', '')
+        flags = ['--no-color', '--no-status', f'--from-{ft}', f'--to-{ft}'] + (['--format', case['fmt']] if case['fmt'] else [])
+        base = [sys.executable, '-m', 'graphtage']
+        ref = subprocess.run(base + [pa, pb] + flags, env=env, capture_output=True, timeout=100)
+        if case['pos'] == 0:
+            got = subprocess.run(base + ['-', pb] + flags, input=da, env=env, capture_output=True, timeout=100)
+        else:
+            got = subprocess.run(base + [pa, '-'] + flags, input=db, env=env, capture_output=True, timeout=100)
+        if (ref.returncode, ref.stdout) != (got.returncode, got.stdout):
+            desc = {k: case[k] for k in ('ft', 'fmt', 'same', 'pos')}
+            last = [ln for ln in got.stderr.decode('utf-8', 'replace').strip().splitlines() if ln.strip()]
+            return {'input': desc, 'what': f"stdin case {desc}: with the {'first' if case['pos'] == 0 else 'second'} document on standard input the command "
+                                           f"exits {got.returncode} and prints {got.stdout.decode('utf-8', 'replace')[:160]!r} ({last[-1][:120] if last else 'no stderr'}); "
+                                           f"with both as files it exits {ref.returncode} and prints {ref.stdout.decode('utf-8', 'replace')[:160]!r}",
+                    'class': 'c14-stdin-differs-from-file', 'replay': {'kind': 'stdincase', 'case': {k: v for k, v in case.items() if k != 'repo'}}}
+        return None
+    finally:
+        tf.cleanup()
+
+
 def _run_mode_case(case):
     _ensure_mimetypes()
     tf = gt.TempFiles()
@@ -364,6 +399,11 @@ def bounded(tier, seed, repo_root):
     for r in pmap(_run_status_case, scases, repo_root, job_timeout=400, on_timeout=_case_timeout, skip_result=None):
         if r:
             fails.append(r)
+    icases = [{'ft': ft, 'fmt': fmt, 'same': same, 'pos': pos, 'repo': repo_root} for ft in ('json', 'yaml', 'json-sep', 'yaml-sep', 'xml-sep', 'csv-sep')
+              for fmt in (None, 'yaml') for same in (False, True) for pos in (0, 1)]
+    for r in pmap(_run_stdin_case, icases, repo_root, job_timeout=400, on_timeout=_case_timeout, skip_result=None):
+        if r:
+            fails.append(r)
     ecases = [{'flags': [], 'sa': '.gtunknownext', 'sb': '.json'}, {'flags': [], 'sa': '.json', 'sb': '.gtunknownext'},
               {'flags': ['--from-json'], 'sa': '.gtunknownext', 'sb': '.gtunknownext'}]
     for r in pmap(_run_error_case, ecases, repo_root, job_timeout=120, on_timeout=_case_timeout, skip_result=None):
@@ -375,7 +415,7 @@ def bounded(tier, seed, repo_root):
         f"with misleading file names for both positions; {len(mcases)} mode cases: {{full, -e, -d}} x --format {{none, json, yaml}} x "
         f"file types of the two positions {{json, yaml}}^2 x {{by suffix, by --from-/--to- flags}} x {{equal, different}} documents, --match-if / --match-unless "
         f"expressions, files of undeterminable type; {len(scases)} subprocess runs of the real command under status output on / "
-        f"--no-status / --quiet on documents with multi-line pieces",
+        f"--no-status / --quiet on documents with multi-line pieces; {len(icases)} subprocess runs with one document on standard input",
         'evaluations': n * 9 + len(cases) + len(mcases), 'distinct_nontrivial': len({D.key(j[0]) + D.key(j[1]) for j in jobs}) + len(cases),
         'exhaustive': False,
         'rule': 'document pair x options -> CLI stdout/exit status equals library rendering; equivalent spellings give '
